@@ -1,21 +1,21 @@
-SPECIFICATION MCSpec
+SPECIFICATION MCFair
 CONSTANTS
   Stages = 2
-  AccEvals = 1
-  DenseEvals = 1
-  CountRule = "hairer"
+  AccEvals = 0
+  DenseEvals = 0
+  CountRule = "scipy"
   HasHinit = TRUE
   HasSmall = TRUE
-  StiffEvery = 2
+  StiffEvery = 0
   StiffLimit = 2
   NonStiffReset = 2
   Metric = TRUE
   S = 4
   HSet = {1, 2, 4}
-  NMaxOpts = {0, 2}
+  NMaxOpts = {3}
   HMaxOpts = {0, 2}
   FsOpts = {TRUE, FALSE}
-  AllowInterrupt = TRUE
-  MaxMods = 1
-INVARIANTS D_Span D_Budget D_Counts D_Stiff D_Flags
+  AllowInterrupt = FALSE
+  MaxMods = 0
+PROPERTY D_Terminates
 CHECK_DEADLOCK FALSE
